@@ -92,6 +92,11 @@ def verify_function(spec, reg):
             else:
                 hit = [n for n in _ast.walk(fsrc.node) if isinstance(n, _ast.stmt) and
                        (_ast.get_source_segment(fsrc.src, n) or '').startswith(spec['fragment'])]
+            if spec.get('fragment_index') is not None and len(hit) > spec['fragment_index'] \
+               and len(hit) == spec.get('fragment_count', len(hit)):
+                # several statements start alike: the n-th in source order, the
+                # total number of matches being pinned as well
+                hit = [sorted(hit, key=lambda n: n.lineno)[spec['fragment_index']]]
             if len(hit) != 1:
                 raise SpecError('fragment %r matches %d statements of %s'
                                 % (spec['fragment'], len(hit), spec['qualname']))
